@@ -146,7 +146,7 @@ theorem src_hOk (hwf : wfSrc src = true) (hh : heightsBelow src = true) : Master
   exact ⟨by simpa using (hwf m hm).2 e he, hh m hm e he⟩
 
 theorem SP_init (orders : List (List String)) (hwf : wfSrc src = true) (hh : heightsBelow src = true) :
-    SP src canAdd [] ⟨src, some src, [], orders⟩ := by
+    SP src canAdd [] ⟨src, none, [], orders⟩ := by
   refine ⟨⟨⟨src_refOk src hwf, src_refOk src hwf, fun e he => by cases he⟩, ?_⟩,
     ⟨src_hOk src hwf hh, src_hOk src hwf hh, fun e he => by cases he⟩⟩
   refine ⟨by simp [namesOf], ?_⟩
@@ -619,7 +619,7 @@ theorem C09_twoByTwo (cfg : Cfg) (src : Masters) (o : PreOut) (httf : cfg.ttf = 
         obtain ⟨m, hm, rfl⟩ := List.mem_map.mp hL0
         exact List.mem_filter.mpr ⟨(mem_allNames src n).mpr ⟨m, hm, (List.mem_filter.mp hn).1⟩, (List.mem_filter.mp hn).2⟩
       have hk0 := src_kOk src hwf
-      have hinit : PA N1 (namesOf src) ⟨src, some src, [], cfg.orders⟩ := by
+      have hinit : PA N1 (namesOf src) ⟨src, none, [], cfg.orders⟩ := by
         refine ⟨⟨hk0, hk0, fun e he => by cases he⟩, src_alikeN src hcc hns, ?_, rfl⟩
         intro ord hord' n hn
         simp only [ordersCover, List.all_eq_true, Bool.or_eq_true] at hord
@@ -791,103 +791,6 @@ theorem skipI_nil (inst : Option Inst) (skip : List String) (h : skip.isEmpty = 
     skipI inst skip s = .ok s := by
   unfold skipI; rw [if_pos h]
 
-theorem runIU_pristine (I : Inst) (P : Masters) (hP : SrcOK P) (incl : Glyph → Bool) (ords : List (List String)) (s' : St)
-    (h : runIU incl (decomposeIStep (some I)) ⟨P, some P, [], ords⟩ = .ok s') : AlikeB (abG absS) s'.ms := by
-  unfold runIU at h
-  cases hr : runI incl (decomposeIStep (some I)) ⟨P, some P, [], ords⟩ with
-  | error e => rw [hr] at h; cases h
-  | ok res =>
-    obtain ⟨s1, md⟩ := res
-    rw [hr] at h
-    simp only [Except.ok.injEq] at h
-    rw [← h, updated_ms]
-    exact runI_pristine I P hP incl ords s1 md hr
-
-/-- **C09_pipeline_inst_partial** (designspace builds: WITH an Instantiator).  Let the sources — full or sparse — be alike
-    (same point types, component names and determinant signs for same-named glyphs) and `signStable` (for every glyph
-    and every two sources that have it, each component's 2×2 determinant has the same NON-ZERO sign in both AND on the
-    whole segment between the two matrices; exactly: `mixDet ≥ 0` on the sign's side, or `mixDet² < 4·det·det`).  Then the
-    pre-processors — CFF: unconditional joint decomposition; TrueType: `check_for_nonmatching_components` + joint decomposition,
-    then cu2qu (contract `cu2quAlike`: alike in ⇒ alike out) or per-master reversal — leave a family that is alike, hence
-    point-compatible: composites that `ensureCompositeDefinedAtComponentLocations` interpolates into sparse masters, and
-    the base glyphs a sparse master's `InterpolatedLayer` interpolates on the fly, look like the sources' because a
-    sign-stable interpolation keeps the sign of every component determinant (`lerpGlyph_alike`).
-    PARTIAL — covered configurations (`instPlain`): no skipExportGlyphs, no custom filters, and for TrueType no
-    flattenComponents, so that the one decomposing run works on the PRISTINE source layers.  Missing for the rest: after
-    the first run that modifies glyphs the Instantiator's Variator cache can be stale relative to the live glyph sets, and
-    matrices composed by an earlier filter need not be sign-stable even if the sources' are (`signStable` is not closed
-    under composition); `C09_signStable_witness` shows the hypothesis cannot be weakened to "equal non-zero signs". -/
-theorem C09_pipeline_inst_partial (cfg : Cfg) (src : Masters) (o : PreOut) (I : Inst) (hI : cfg.inst = some I)
-    (hplain : instPlain cfg = true) (hwf : wfSrc src = true) (hal : alike src = true) (hst : signStable src = true)
-    (hcu : cu2quAlike cfg o.beforeCu2qu = true)
-    (h : (if cfg.ttf then preprocessTTF cfg src else preprocessOTF cfg src) = .ok o) :
-    AlikeB (abG absS) o.final ∧ compatible o.final = true := by
-  have hP := srcOK_of src hwf hal hst
-  simp only [instPlain, Bool.and_eq_true, Bool.or_eq_true, Bool.not_eq_true'] at hplain
-  obtain ⟨⟨hskip, hcustom⟩, hflat⟩ := hplain
-  let s0 : St := ⟨src, some src, [], cfg.orders⟩
-  have key : ∃ s : St, AlikeB (abG absS) s.ms ∧ s.ms = o.final := by
-    split at h
-    · rename_i httf
-      have hnofl : cfg.flatten = false := by
-        rcases hflat with h1 | h1
-        · rw [httf] at h1; cases h1
-        · exact h1
-      apply preprocessTTF_chain (fun s => s = s0) (fun s => s = s0) (fun s => s = s0)
-        (fun s => AlikeB (abG absS) s.ms) (fun s => AlikeB (abG absS) s.ms) (fun s => AlikeB (abG absS) s.ms)
-        (fun s => AlikeB (abG absS) s.ms) cfg src o rfl
-      · intro s s' hs hh; rw [hs, skipI_nil _ _ hskip] at hh; exact (Except.ok.inj hh).symm
-      · intro s s' hs hh; rw [hs, runCustom_none cfg hcustom] at hh; exact (Except.ok.inj hh).symm
-      · intro s s' hs hh
-        rw [hs, hI] at hh
-        unfold decomposeNeeded at hh
-        dsimp only at hh
-        split at hh
-        · simp only [Except.ok.injEq] at hh; rw [← hh]; exact hP.alike
-        · exact runIU_pristine I src hP _ cfg.orders s' hh
-      · intro s s' b hs hh hb
-        have hbefore := curvesStep_before cfg s s' b hh
-        unfold curvesStep at hh
-        split at hh
-        · rename_i hcc
-          cases hq : cfg.cu2qu with
-          | none => rw [hq] at hh; cases hh
-          | some q =>
-            rw [hq] at hh
-            simp only [Except.ok.injEq, Prod.mk.injEq] at hh
-            rw [← hh.2, updated_ms]
-            rw [hb, hbefore hcc] at hcu
-            simp only [cu2quAlike, hq, Bool.or_eq_true, Bool.not_eq_true'] at hcu
-            rcases hcu with hc | hc
-            · have := (alike_iff s.ms).mpr hs
-              rw [hc] at this; cases this
-            · exact (alike_iff q).mp hc
-        · split at hh
-          · simp only [Except.ok.injEq, Prod.mk.injEq] at hh
-            rw [← hh.2, updated_ms]
-            apply reverseAll_alike (abG absS) _ s.ms hs
-            intro g1 g2 hg
-            simp only [abG, Prod.mk.injEq] at hg ⊢
-            exact ⟨absS.Γ_rev _ _ hg.1, hg.2⟩
-          · simp only [Except.ok.injEq, Prod.mk.injEq] at hh
-            rw [← hh.2]; exact hs
-      · intro hfl; rw [hnofl] at hfl; cases hfl
-      · intro s hs; exact hs
-      · intro s s' hs hh; rw [runCustom_none cfg hcustom] at hh; rw [← Except.ok.inj hh]; exact hs
-      · exact h
-    · apply preprocessOTF_chain (fun s => s = s0) (fun s => s = s0) (fun s => s = s0)
-        (fun s => AlikeB (abG absS) s.ms) (fun s => AlikeB (abG absS) s.ms) cfg src o rfl
-      · intro s s' hs hh; rw [hs, skipI_nil _ _ hskip] at hh; exact (Except.ok.inj hh).symm
-      · intro s s' hs hh; rw [hs, runCustom_none cfg hcustom] at hh; exact (Except.ok.inj hh).symm
-      · intro s s' hs hh
-        rw [hs, hI] at hh
-        exact runIU_pristine I src hP _ cfg.orders s' hh
-      · intro s s' hs hh; rw [runCustom_none cfg hcustom] at hh; rw [← Except.ok.inj hh]; exact hs
-      · exact h
-  obtain ⟨s, hs, hsm⟩ := key
-  rw [hsm] at hs
-  exact ⟨hs, compatible_of_alikeS o.final hs⟩
-
 /-! ### the witness: equal non-zero determinant signs are not enough -/
 
 def wA (k : Q) : Glyph :=
@@ -962,16 +865,6 @@ example : (match compileFamily xCfg xSrc with
     have h2 := C09_sparse xCfg xSrc o (by decide +kernel) (by decide +kernel) (by decide +kernel) (by decide +kernel)
       (by decide +kernel) (xCfg_cu2quOk _) h
     simp only [h1, h2, beq_self_eq_true, Bool.and_self]
-
-/-- `C09_pipeline_inst_partial` applies to the same family (alike, sign-stable, plain configuration) -/
-example : ∃ o, preprocessTTF xCfg xSrc = .ok o ∧ AlikeB (abG absS) o.final ∧ compatible o.final = true := by
-  cases h : preprocessTTF xCfg xSrc with
-  | error e =>
-    have hok : isOk (preprocessTTF xCfg xSrc) = true := by decide +kernel
-    rw [h] at hok; cases hok
-  | ok o =>
-    exact ⟨o, rfl, C09_pipeline_inst_partial xCfg xSrc o ⟨[0, 1, 1/2], 0⟩ rfl (by decide +kernel) (by decide +kernel)
-      (by decide +kernel) (by decide +kernel) (xCfg_cu2quAlike _) (by simpa [xCfg] using h)⟩
 
 /-- a real interpolation to which `lerpGlyph_alike` applies: half-way between the identity and a scaling by 1/2 -/
 example : abG absS (xB ⟨1, 0, 0, 1, 0, 0⟩) = abG absS (xB ⟨1/2, 0, 0, 1/2, 10, 0⟩) ∧
